@@ -100,8 +100,7 @@ Theorem gen_to_inexact_bitwise_digits_le w N fuel self bits out :
   PrintGen.to_inexact_bitwise_digits_le w N fuel self bits = Done out.
 Proof.
   intros Hb H256 Hf H. unfold PrintGen.to_inexact_bitwise_digits_le. cbv zeta.
-  rewrite gen_mask by lia.
-  destruct (gen_div_ceil w N fuel (Bits.bits_of w self) bits ltac:(lia)) as (cap & ->). rewrite bind_Done.
+  destruct (gen_div_ceil w N fuel (Bits.bits_of w self) bits ltac:(lia)) as (cap & ->). straight.
   unfold RadixOut.to_inexact_bitwise_digits_le in H. cbv zeta in H.
   destruct (RadixOut.inexact_outer w bits (RadixOut.bit_mask w bits) self 0 0) as [[[o r'] rb']|] eqn:E; [|discriminate].
   injection H as <-.
